@@ -17,13 +17,6 @@ import Properties.C02
 namespace Pulser
 namespace C06
 
-/-- The pulse instruction number `i` of channel `c` is `s`, holding pulse `p`. -/
-abbrev IsPulseSlot (c : ChanState) (i : Nat) (s : Slot) (p : PulseRec) : Prop :=
-  c.slots[i]? = some s ∧ s.kind = .pulse p
-
-theorem IsPulseSlot.mem {c : ChanState} {i : Nat} {s : Slot} {p : PulseRec} (h : IsPulseSlot c i s p) :
-    (⟨i, s, p⟩ : PSlot) ∈ c.pulseSlots := mem_pulseSlots.mpr h
-
 /-- **Amplitude inside a pulse**: at a time inside pulse instruction `i` the amplitude
 sample is the single term "sample `t − ti` of that pulse" — pulses never overlap, so the
 "sum of the pulses scheduled at that time" has exactly one term. -/
@@ -291,12 +284,16 @@ theorem per_atom_phase_single_drive (instrs : List NInstr) (on : Nat → Bool) (
 
 /-! ### Non-vacuity: a reachable sequence meets the hypotheses -/
 
+-- helpers of the examples are `def`s so that only property theorems are `theorem`s in this file
+set_option linter.defProp false
+
 def exGlobal : ChanCfg := { clock := 4, minDur := 16, rise := 120, pjt := 240, maxDur := some 1000 }
 def exLocal : ChanCfg :=
   { clock := 4, minDur := 16, isLocal := true, basis := .digital, maxTargets := some 2 }
 def exDev : Device := { chans := [exGlobal, exLocal], dmms := [], reusable := false, maxSeqDur := none }
 
-theorem exDev_ok : DevOk exDev := by
+/-- (helper of the examples, not a property theorem) -/
+def exDev_ok : DevOk exDev := by
   refine ⟨?_, ?_⟩ <;> intro c hc <;> simp [exDev, exGlobal, exLocal] at hc
   rcases hc with hc | hc <;> subst hc <;> decide
 
@@ -320,12 +317,15 @@ example : exG.slots.map (fun s => (s.ti, s.tf)) = [(-1, 0), (0, 104), (104, 544)
 example : exL.slots.map (fun s => (s.ti, s.tf, s.targets)) =
     [(-1, 0, [0, 2]), (0, 20, [0, 2]), (20, 20, [1]), (20, 44, [1])] := by decide +kernel
 
-theorem exG_inv : ChanInv none exG :=
+/-- The hypothesis `ChanInv` of every theorem above holds for the channels of this reachable
+sequence (by `C02.timeline_inv`). -/
+def exG_inv : ChanInv none exG :=
   C02.timeline_inv exDev 3 exDev_ok exState ⟨exOps, rfl⟩ exG (by decide +kernel)
-theorem exL_inv : ChanInv none exL :=
+def exL_inv : ChanInv none exL :=
   C02.timeline_inv exDev 3 exDev_ok exState ⟨exOps, rfl⟩ exL (by decide +kernel)
 
-theorem exG_slot3 : ∃ s p, IsPulseSlot exG 3 s p ∧ s.ti = 544 ∧ s.tf = 596 ∧ p.dd = false := by
+/-- Instruction 3 of the global channel is a pulse over [544, 596) that is not a detuned delay. -/
+def exG_slot3 : ∃ s p, IsPulseSlot exG 3 s p ∧ s.ti = 544 ∧ s.tf = 596 ∧ p.dd = false := by
   refine ⟨exG.slots[3]!, (exG.slots[3]!).pulse?.get!, ?_⟩
   decide +kernel
 
